@@ -10,6 +10,7 @@
 (*                                                                             *)
 (* One action per critical section of the code:                                *)
 (*   RecvLSP(i, id, s, l)       lsdb.processLSP      ISO 10589 7.3.15.1 e), 7.3.16.1 *)
+(*   RecvOwnBurst(i, s1, s2, l) two newer copies of the local LSP before the updater runs (scheduler gate) *)
 (*   RecvCSNP(i, rg, es)        lsdb.processCSNP     7.3.15.2 b), c)           *)
 (*   RecvPSNP(i, es)            lsdb.processPSNP     7.3.15.2 b)               *)
 (*   Tick(k)                    k runs of lsdb.decrementRemainingLifetimes     *)
@@ -25,6 +26,7 @@ CONSTANTS Ifaces,       \* circuits
           Remote,       \* LSP IDs of other systems, subset of {"r1", "r2"}; order of LSP IDs: r1 < own < r2
           MaxSeq,       \* sequence numbers of remote LSPs: 1..MaxSeq
           OwnDeltas,    \* sequence numbers of received copies / SNP entries of the local LSP, relative to the stored one
+          Bursts,       \* pairs <<d1, d2>> (both > 0): two newer copies of the local LSP received before the updater has run
           Lifes,        \* remaining lifetimes of received LSPs
           SnpLifes,     \* remaining lifetimes reported in SNP entries
           OwnLifetime, Threshold,
@@ -130,6 +132,17 @@ RecvLSP(i, id, s, l) ==
     /\ best' = IF id = "own" THEN best ELSE [best EXCEPT ![id] = Max(@, s)]
     /\ Log([a |-> "RecvLSP", ifa |-> i, id |-> id, seq |-> s, life |-> l])
 
+(* processLSP only raises the local sequence counter and asks the updater routine for a regeneration; two newer copies may *)
+(* arrive before the updater runs: the regenerated LSP is above both (the code may regenerate once per request, i.e. end  *)
+(* even higher: the replay continues from the number the code chose)                                                     *)
+RecvOwnBurst(i, s1, s2, l) ==
+    /\ db["own"].p /\ s1 > db["own"].seq /\ s2 > db["own"].seq
+    /\ db' = [db EXCEPT !["own"] = Fresh(Max(s1, s2) + 1)]
+    /\ ownNewer' = Max(ownNewer, Max(s1, s2))
+    /\ ownRecv' = Max(ownRecv, Max(s1, s2))
+    /\ UNCHANGED best
+    /\ Log([a |-> "RecvOwnBurst", ifa |-> i, seq1 |-> s1, seq2 |-> s2, life |-> l])
+
 RecvPSNP(i, es) ==
     /\ es # {}
     /\ db' = ApplySNP(db, i, es)
@@ -175,6 +188,7 @@ EntrySets(ids) == LET pick(id) == {{}} \cup {{[id |-> id, seq |-> s, life |-> l]
 
 Step == \/ \E i \in Ifaces, id \in Remote, s \in 1..MaxSeq, l \in Lifes : RecvLSP(i, id, s, l)
         \/ \E i \in Ifaces, d \in OwnDeltas, l \in Lifes : db["own"].p /\ RecvLSP(i, "own", db["own"].seq + d, l)
+        \/ \E i \in Ifaces, bu \in Bursts, l \in Lifes : db["own"].p /\ RecvOwnBurst(i, db["own"].seq + bu[1], db["own"].seq + bu[2], l)
         \/ \E i \in Ifaces, es \in EntrySets(Ids) : RecvPSNP(i, es)
         \/ \E i \in Ifaces, rg \in Ranges, es \in EntrySets(Ids) : RecvCSNP(i, rg, es)
         \/ \E k \in Jumps : Tick(k)
